@@ -287,7 +287,7 @@ PROPS["C01"] = {
         {"name": "histories", "pkg": "./zverif/c01", "run": "^TestVerifC01", "timeout": {"quick": 400, "thorough": 2400},
          "shards": {"quick": 1, "thorough": 16}},
     ],
-    "rule": "rapid draws histories of 4..30 operations (apply a compiled closure, apply a reflect.MakeFunc callback, stub with Return, call, GC, churn, reset) "
+    "rule": "rapid draws histories of 4..30 operations (apply a compiled closure, apply a reflect.MakeFunc callback, stub with Return, call, GC, churn, reset, drop the builder without reset + GC + heap reuse) "
             "over a window of 4 functions of a generated corpus of 120 functions (signature grammar: 0..20 parameters / 0..5 results over 33 types incl. "
             "register overflow of integer and float registers, stack-passed arrays/structs, variadics); calls use 5 forms (direct, func value, defer, go, "
             "reflect.Call), boundary-biased argument values, optionally from a goroutine that first recursed 20..620 frames. Oracle: the recorder - the "
@@ -297,7 +297,8 @@ PROPS["C01"] = {
             "argument or result; distinct by the sequence of (function, form, mock kind, value codes).",
     "assumptions": ["functions are compiled with -gcflags=all=-l as goom requires", "generic functions with parameters are not in this corpus (known finding, see C06)"],
     "floors": [("histories", "call/repl", 300), ("histories", "call/ret", 200), ("histories", "call/after-gc", 50),
-               ("histories", "call/after-stack-growth", 100), ("histories", "abi/int-overflow", 20), ("histories", "abi/float-overflow", 20)],
+               ("histories", "call/after-stack-growth", 100), ("histories", "abi/int-overflow", 20), ("histories", "abi/float-overflow", 20),
+               ("histories", "call/mock-of-dropped-builder-after-gc", 100)],
 }
 
 PROPS["C08"] = {
@@ -416,7 +417,8 @@ PROPS["C12"] = {
             "instruction. Plus a deterministic check that Pkg affects exactly the next lookup. Non-trivial: a history in which some target alternates "
             ">=2 times between callback and stub; distinct by the (op,target) sequence.",
     "assumptions": ["one handle kind per target (Func and ExportFunc on the same function within one builder are not mixed)"],
-    "floors": [("histories", "target-with->=2-callback/stub-alternations", 200), ("histories", "pkg-override-next-lookup-only", 1)],
+    "floors": [("histories", "target-with->=2-callback/stub-alternations", 200), ("histories", "pkg-override-next-lookup-only", 1),
+               ("histories", "history-with-instructions-through-kept-handles", 200)],
 }
 
 PROPS["C13"] = {
@@ -427,13 +429,15 @@ PROPS["C13"] = {
     ],
     "rule": "rapid draws (mistake class, corpus function / struct type / interface, position of the offending item): non-function target; callback with "
             "too few/many parameters or results; parameter/result of different size at position i; When with 1..n-1 arguments; Return with 1..n-1 "
-            "values; return value of wrong size at position i; unknown method / symbol / method by name; Interface given a non-pointer or a pointer "
+            "values; return value of wrong size at position i; an ill-formed element j of a Returns(...) sequence (wrong size / too few values) on functions, "
+            "struct methods and interface methods; unknown method / symbol / method by name; Interface given a non-pointer or a pointer "
             "to a non-interface; interface callback without *IContext, with too few / too many parameters, wrong result count, unknown method. Oracle: "
             "the configuration call panics or errs; an error's cause chain terminates and reaches the repository's typed cause where one exists "
             "(ArgsNotMatch, ReturnsNotMatch, IllegalParamType); afterwards the executable image is unchanged, the target runs its original body, the "
             "interface variable is untouched and Reset does not panic. Every applicable mistake is non-trivial; distinct by (class, target, position).",
     "assumptions": ["Return() with no values at all is not generated (goom treats it as 'no default yet'; see DESIGN section 5)"],
-    "floors": [("mistakes", "class/when-too-few", 30), ("mistakes", "class/ret-too-few", 30), ("mistakes", "class/cb-param-size", 50), ("mistakes", "class/iface-cb-too-few", 30)],
+    "floors": [("mistakes", "class/when-too-few", 30), ("mistakes", "class/ret-too-few", 30), ("mistakes", "class/cb-param-size", 50), ("mistakes", "class/iface-cb-too-few", 30),
+               ("mistakes", "class/returns-size", 30), ("mistakes", "class/method-returns-size", 20), ("mistakes", "class/iface-returns-size", 10)],
 }
 
 PROPS["C02"] = {
@@ -451,7 +455,7 @@ PROPS["C02"] = {
             "the image is pristine outside placeholder bodies. Non-trivial: a restore after a re-apply or with a second owner; distinct by window and op sequence.",
     "assumptions": ["calls that reach an origin placeholder run with stack headroom and GC paused (open finding C03/origin-morestack-reentry is excluded by construction)"],
     "floors": [("histories", "history/restore-after-reapply-or-second-owner", 100), ("histories", "history/two-owners-on-one-target", 50),
-               ("histories", "history/with-origin-placeholder", 50)],
+               ("histories", "history/with-origin-placeholder", 50), ("histories", "instruction-through-a-kept-handle", 100)],
 }
 
 PROPS["C14"] = {
@@ -504,10 +508,11 @@ PROPS["C19"] = {
             "clauses, result sequences and a variadic callback; a struct method by callback and Return; an interface variable with methods mocked by "
             "Apply and As().Return plus an unmocked slot; a callback that panics with a string / error / int / value whose String() panics / nil "
             "dereference; a function over hostile values: rings, nil and typed-nil interfaces, errors whose Error() dereferences nil, Stringers that "
-            "panic, structs with unexported pointer/interface/func fields, 200000-element slices, nil **int) and plays it four times: logging off, "
+            "panic, structs with unexported pointer/interface/func fields, 200000-element slices, nil **int; and a second one over arrays passed by value ([64]byte, [40]int, "
+            "nested arrays in structs, [0]int), maps with nil values, channels, funcs, unsafe.Pointer, complex numbers) and plays it four times: logging off, "
             "OpenDebug, OpenTrace, off again, and for 1 in 8 in a child process started with GOOM_DEBUG=1. Oracle (metamorphic): the transcripts "
             "(calls, arguments recorded by callbacks, results, panic classes; values by content) are identical. Every scenario is non-trivial; "
             "distinct by (kind, target, value codes).",
     "assumptions": ["self-containing slices/maps reachable through interface{} are not generated (fmt itself overflows the stack on them)"],
-    "floors": [("scenarios", "scenario/hostile", 30), ("scenarios", "scenario/iface", 15), ("scenarios", "transcripts-with-a-panic", 20), ("scenarios", "compared-with-GOOM_DEBUG-child", 5)],
+    "floors": [("scenarios", "scenario/hostile", 30), ("scenarios", "scenario/hostile2", 20), ("scenarios", "scenario/iface", 15), ("scenarios", "transcripts-with-a-panic", 10), ("scenarios", "compared-with-GOOM_DEBUG-child", 5)],
 }
